@@ -65,10 +65,45 @@ func runC10(e *core.Env) {
 				}
 			}
 		}
+		if r.Chance(1, 8) {
+			text = c10Stretch(r, text) // faulty lines far wider than a terminal, the fault far to the right
+			rules += "+stretched"
+		}
 		e.Begin(i, []byte(text))
 		c10Check(e, r, i, text, rules, single, m, d)
 		e.End(i)
 	}
+}
+
+// c10Stretch widens the first faulty line: a run of 80-300 blanks is inserted after its first token (or blanks and a
+// stray character are appended), so that the line is longer than any terminal and faults lie beyond column 80.
+func c10Stretch(r *core.Rand, text string) string {
+	rec := ref.Recognise(text)
+	if rec.Verdict != ref.NonConforming {
+		return text
+	}
+	ls := ref.SplitLines(text)
+	if rec.BadLine < 0 || rec.BadLine >= len(ls) {
+		return text
+	}
+	l := ls[rec.BadLine].Text
+	a := 0
+	for a < len(l) && (l[a] == ' ' || l[a] == '\t') {
+		a++
+	}
+	pad := strings.Repeat(" ", r.PickInt(80, 120, 300))
+	if b := strings.IndexByte(l[a:], ' '); b >= 0 {
+		l = l[:a+b] + pad + l[a+b:]
+	} else {
+		l = l + pad + r.Pick("x", "(8h", "-", "?")
+	}
+	ls[rec.BadLine].Text = l
+	var sb strings.Builder
+	for _, x := range ls {
+		sb.WriteString(x.Text)
+		sb.WriteString(x.Ending)
+	}
+	return sb.String()
 }
 
 func c10Check(e *core.Env, r *core.Rand, idx int64, text, rules string, single bool, m gen.Mutant, d *gen.Out) {
